@@ -207,7 +207,10 @@ WINDOW_LINES = ["// c  ", "//~  marker  ", "/* open  ", "   text   ", "*/  ", ""
 COMMENT_FORMS = ["// plain comment text", "//~ ERROR marker text", "//- note text", "//@ directive: value", "//! inner doc text", "/// outer doc text", "//// four slashes",
                  "//x no blank", "//\ttab after", "/* block text */", "/** doc block */", "/*! inner block */", "/*** stars ***/", "/* first line\n * second line\n * third\n */",
                  "/*\n   * indented star\n   text without star\n*/", "// * item one\n// * item two\n//   continued", "// 1. numbered\n// 2) other", "// > quote text\n// > more",
-                 "// ```\n// code  block\n// ```", "/// # Heading\n///\n/// - bullet with `code`\n///   continued line", "// TODO(name): something  \n//   aligned", "//"]
+                 "// ```\n// code  block\n// ```", "/// # Heading\n///\n/// - bullet with `code`\n///   continued line", "// TODO(name): something  \n//   aligned", "//",
+                 # block quotes and list markers whose prefix is not spelled `> ` per level / that have nothing after the marker
+                 "// > >>>> x", "// >>> \u00e9", "// >", "// >>x\n// > > y", "// * > x", "// - >", "// 1.", "// *", "// -", "// +x", "// 10. > >> q", "// >\t>\tx", "/* > >>>> x */",
+                 "/// > >>>> doc quote\n/// >> more"]
 
 
 def comment_cases(tier, seed):
